@@ -345,3 +345,4 @@ H("C13", "html/layout", "VxH_C13_fixed_auto_column", mode="real", reach=["laid-o
 H("C14", "html/document", "VxH_C14_border_image", mode="real", nonfinite_confirm=True, reach=["laid-out", "drawn"], bounds="one block with a 10px border and a linear-gradient border image; border-image-slice in 8 values (0, 0%, mixed, fill, 100%), 4 repeat modes, content width and height symbolic reals in [0,100]; paths with a float division by zero are decided by running their solver model natively", quick={"maxsteps": 200000000, "shards": 8})
 H("C18", "svg", "VxH_C18_arc_center", mode="real", reach=["centre"], bounds="arc from the origin to a symbolic end point in [-100,100]^2, rx symbolic in [1,100], ry/rx in {1, 2, 1/2}, both flags, x-axis-rotation 0; exact reals with sqrt axiomatised", quick={"solverms": 60000})
 H("C02", "html/layout", "VxH_C02_nested_padding", mode="real", reach=["laid-out", "split"], bounds="a block, then a section with three child blocks and a symbolic bottom padding in [0,40] and optional bottom border in [1,20], then a block; heights in [10,60] on 100px pages", quick={"maxsteps": 100000000, "time": "600s", "shards": 8})
+H("C15", "text", "VxH_C15_lang_quotes", reach=["looked-up"], bounds="GetLangQuotes on the real entries of 4 related keys ('', fr, fr_CH, de) for 5 language tags; every visiting order of that sub-table in two independent runs (the full table of ~120 entries is out of reach of permutation)", quick={"shards": 4})
